@@ -122,6 +122,7 @@ def judge : Judge := liftJudge fun input obs => do
     ++ (if (S n).isEmpty then ["final-empty"] else [])
     ++ (if optInt input "consumeUs" > 0 then ["slow-consumer"] else ["fast-consumer"])
     ++ (if optInt input "pullMs" ≥ 1000 then ["watch-driven"] else ["ticker+watch"])
+    ++ (if optInt obs "convergeMs" > 5000 then ["late-convergence"] else [])
     ++ (if fault != "" then ["fault:" ++ fault ++ (if faultDone then ":done" else ":failed")] else [])
     ++ (if obsData.length ≥ 10 then ["snaps>=10"] else if obsData.isEmpty then ["snaps=0"] else ["snaps<10"])
   pure { agree := agree, spec := spec,
